@@ -27,8 +27,8 @@ def prop(pid, rules, cfgs_quick, explanation, technique, not_decided, cfgs_thoro
 prop("C02",
      [("S1", S.S1, K01, {}), ("S2", S.S2, K01, {}), ("S3", S.S3, K01, {}), ("S4", S.S4, K01, {}), ("S5", S.S5, K01, {}),
       ("L2", lambda ctx: __import__("rules_run").L2(ctx), K01, {}),
-      ("B1", S.opts_frame, K01, {"fields": ("StreamOrder",)}),
-      ("R3", B.R3, ("K0",), {"parts": ("structures", "counts")})],
+      ("B1", S.opts_frame, K01, {"fields": ("StreamOrder",)}), ("B2", S.order_wiring, K01, {}),
+      ("R3", B.R3, ("K0",), {"parts": ("structures", "counts")}), ("E", B.C16_rules, ("K0",), {})],
      K01,
      "Decides the scheduler premises S1-S5 (and L2: each fold step returns its state only after the user future's Ready arm) on the MIR of every streaming path: counts/structure pairing chain "
      "(in-degree with forward structure, out-degree with reversed structure, build() orientation, StreamOpts::rev/default), "
@@ -42,7 +42,7 @@ prop("C02",
 prop("C03",
      [("S1", S.S1, K01, {}), ("S2", S.S2, K01, {}), ("S3", S.S3, K01, {}), ("S5", S.S5, K01, {}),
       ("S6", S.S6, K01, {"roles_filter": ("READY", "DONE")}),
-      ("R3", B.R3, ("K0",), {"parts": ("structures", "counts")})],
+      ("R3", B.R3, ("K0",), {"parts": ("structures", "counts")}), ("R4", B.R4, ("K0",), {}), ("O6", R.O6, K01, {})],
      K01,
      "Decides S2 (each ready-send is the preload of all zero-count nodes or the release at count==0 after the decrement), "
      "S3 (counts only decrease by one per predecessor edge), S6 (channel capacities are monotone in node_count so try_send never drops an id) "
@@ -53,19 +53,22 @@ prop("C03",
 prop("C04",
      [("T1", T.T1, K01, {}), ("T2", T.T2, K01, {}), ("T3", T.T3, K01, {"want_stream": False}),
       ("S6", S.S6, K01, {}), ("S7", S.S7, K01, {}), ("S1", S.S1, K01, {}), ("T4", T.T4, ("K1",), {}), ("A1", T.A1, K01, {}),
-      ("S2", S.S2, K01, {}), ("S3", S.S3, K01, {})],
+      ("S2", S.S2, K01, {}), ("S3", S.S3, K01, {}), ("IM", S.S5_interrupt_map, ("K1",), {"rule": "IM"}),
+      ("R3", B.R3, ("K0",), {"parts": ("structures", "counts")}), ("R4", B.R4, ("K0",), {})],
      K01,
      "Decides the release-obligation table T1 per public entry point (done-sender released on EMPTY / FINISHED / INTERRUPTED / FAILED; "
      "ready-sender released by the queuer), T2 (queuer and scheduler joined), T3 (wake-up typestate of every hand-written poll function "
      "outside the stream family, plus an inventory of every receive site), S6 (capacities), S7 (fallible sends never unwrapped), S2/S3 (every root preloaded, every "
-     "successor released at count 0), T4 (interrupt notices reach the scheduler) and A1 (no protocol future dropped or polled once and abandoned).",
+     "successor released at count 0), T4 (interrupt notices reach the scheduler), IM (every Interrupted item sets the interrupted flag that T1.INTERRUPTED releases on), "
+     "R3 (counts describe the augmented graph: no count underflow) and A1 (no protocol future dropped or polled once and abandoned).",
      "MIR typestate dataflow over poll functions + release-obligation table via control dependence and provenance, per entry point through the call graph",
      "absence of panics from index/arithmetic checks; fairness inside futures/tokio")
 
 prop("C05",
      [("T3", T.T3, K01, {"want_stream": True}), ("U1", T.U1, K01, {}), ("S2", S.S2, K01, {}), ("S3", S.S3, K01, {}),
       ("S5", S.S5, K01, {}), ("S7", S.S7, K01, {}), ("S4", S.S4, K01, {"liveness": True}),
-      ("S6", S.S6, K01, {"roles_filter": ("READY", "DONE")})],
+      ("S6", S.S6, K01, {"roles_filter": ("READY", "DONE")}),
+      ("R3", B.R3, ("K0",), {"parts": ("structures", "counts")})],
      K01,
      "Decides T3 on the stream poll closure (no return that may be Pending after a Ready(Some) from the done receiver without re-polling it), "
      "U1 (end-of-stream bookkeeping: countdown from node_count decremented on Ready(Some), both senders released at 0 and for the empty graph, "
@@ -93,7 +96,8 @@ prop("C01",
 prop("C06",
      [("W1", B.W1, K0, {}), ("W2", B.W2, K0, {}), ("R1", B.R1, K0, {}), ("W3", S.W3, K01, {}), ("S3", S.S3, K01, {}),
       ("S6", S.S6, K01, {"roles_filter": ("READY", "DONE")}),
-      ("W4", lambda ctx: __import__("rules_run").W4(ctx), K01, {}), ("S2", S.S2, K01, {})],
+      ("W4", lambda ctx: __import__("rules_run").W4(ctx), K01, {}), ("S2", S.S2, K01, {}),
+      ("R3", B.R3, K0, {"parts": ("structures", "counts")}), ("R4", B.R4, K0, {})],
      K01,
      "Decides W4 = L1 (limit forwarded unchanged, so None gates nothing), W1 (the only edge-adding call on the user's graph reachable from build() is update_edge with the constant Edge::Data, "
      "no other node/edge-set mutator), W2 (the comparison pairs feeding its guard contain no read x read pair and no same-function pair; "
@@ -155,7 +159,7 @@ prop("C18",
 
 prop("C07",
      [("F", R.F_rules, K01, {}), ("S6", S.S6, K01, {"roles_filter": ("RESULT",)}), ("T1", T.T1, K01, {"kinds": ("FAILED",)}),
-      ("O4", R.O4, K01, {})],
+      ("O4", R.O4, K01, {}), ("S7", S.S7, K01, {})],
      K01,
      "Decides F1 (on the Err arm of the user future exactly one awaited send on the RESULT channel carries that error), F2 (from the Err arm every "
      "path to the done-send passes through the release of the done-sender), F3 (RESULT capacity monotone in node_count; its receiver is drained only "
@@ -166,7 +170,7 @@ prop("C07",
 
 prop("C08",
      [("I", R.I_rules, ("K1",), {}), ("S5", S.S5, ("K1",), {}), ("T1", T.T1, ("K1",), {"kinds": ("INTERRUPTED",)}), ("T4", T.T4, ("K1",), {}),
-      ("B1", S.opts_frame, ("K1",), {"fields": ("InterruptibilityState", "bool")}), ("S7", S.S7, ("K1",), {})],
+      ("B1", S.opts_frame, ("K1",), {"fields": ("InterruptibilityState", "bool")}), ("S7", S.S7, ("K1",), {}), ("O3b", R.O3b, ("K1",), {})],
      ("K1",),
      "Decides the wiring only: I1 (opts.interruptibility_state and interrupted_next_item_include flow unchanged from each public parameter - or from "
      "StreamOpts::default() - to the ready-stream wrapper; stream_with_interruptible passes the state to interruptible_with, stream/stream_with do not wrap), "
@@ -177,7 +181,7 @@ prop("C08",
      "THE NUMERIC BOUNDS THEMSELVES (<= 1 / <= n more, pending-signal cases, PollNextN(0)): they are the state machine of interruptible::InterruptibleStream in another crate; fn_graph only wires it")
 
 prop("C09",
-     [("O", R.O_rules, K01, {}), ("O3b", R.O3b, K01, {}), ("S5", S.S5, K01, {}), ("I2", R.I2_rule, ("K1",), {}), ("O5", R.O5, K01, {})],
+     [("O", R.O_rules, K01, {}), ("O3b", R.O3b, K01, {}), ("S5", S.S5, K01, {}), ("I2", R.I2_rule, ("K1",), {}), ("O5", R.O5, K01, {}), ("O6", R.O6, K01, {})],
      K01,
      "Decides O1 (the only pushes to fn_ids_processed happen in the ready-stream adaptors, with the id dequeued from READY, once per dequeue, not in per-item bodies), "
      "O2 (StreamOutcome::new stores processed/state unchanged and computes not-processed as the node-order filter !processed.contains(id) over all nodes of the walked structure; "
